@@ -338,8 +338,21 @@ structure Touched where
   kind : GenKind
   deriving DecidableEq, Repr
 
+def Target.tag : Target → String
+  | .cls => "c"
+  | .inst i => toString i
+
+/-- which statement an event belongs to -/
+def Op.tag : Op → String
+  | .setTime _ => "setTime" | .advance _ => "advance" | .setStep _ => "setStep" | .setUntil _ => "setUntil"
+  | .read tg p => s!"read:{tg.tag}:{p}" | .inspect tg p => s!"inspect:{tg.tag}:{p}"
+  | .force tg p => s!"force:{tg.tag}:{p}"
+  | .push i => s!"push:{i}" | .pop i => s!"pop:{i}"
+  | .assign _ _ _ => "assign" | .newInst => "newInst" | .ctx _ => "ctx" | .raise _ => "raise"
+
 structure Ev (V : Type) where
   kind : EvKind
+  tag : String
   res : Res V
   clock : Snap
   caches : List (Option V × Int × Nat)     -- per generator: last, lastTime, len(saved)
@@ -366,12 +379,12 @@ def traceOp (env : Env H V) : Op → World V → List (Ev V)
   | .ctx body, w =>
     let w0 := { w with clock := w.clock.enter }
     let (r, w') := runOp env (.ctx body) w
-    [{ kind := .enter, res := .ok .unit, clock := w0.clock.snap, caches := cachesOf w0, touched := none, gens := [] }]
+    [{ kind := .enter, tag := "enter", res := .ok .unit, clock := w0.clock.snap, caches := cachesOf w0, touched := none, gens := [] }]
       ++ traceOps env body w0
-      ++ [{ kind := .exit, res := r, clock := w'.clock.snap, caches := cachesOf w', touched := none, gens := [] }]
+      ++ [{ kind := .exit, tag := "exit", res := r, clock := w'.clock.snap, caches := cachesOf w', touched := none, gens := [] }]
   | o, w =>
     let (r, w') := runOp env o w
-    [{ kind := .op, res := r, clock := w'.clock.snap, caches := cachesOf w', touched := touchedOf w o, gens := gensOf w o }]
+    [{ kind := .op, tag := o.tag, res := r, clock := w'.clock.snap, caches := cachesOf w', touched := touchedOf w o, gens := gensOf w o }]
 def traceOps (env : Env H V) : List Op → World V → List (Ev V)
   | [], _ => []
   | o :: os, w =>
